@@ -231,7 +231,7 @@ def _worker_mod(task):
     _kind, modname, part, nparts, seed, tier = task
     mod = common.module(modname)
     sc = G.budget_scale(mod)
-    P = G.scaled_params(PARAMS[tier], sc)
+    P = G.scaled_params(PARAMS[tier], sc, tier)
     rng = G.task_rng(seed, PROPERTY, modname, part)
     fnd, st = G.Findings(), G.Stats()
     rf = G.relfile(mod)
@@ -282,7 +282,9 @@ def _worker(task):
 def search(seed, tier):
     t0 = time.time()
     P = PARAMS[tier]
-    names = [m.__name__ for m in common.number_modules()]
+    # the look-alike sentence of the property is about formats that clean their input: the eight generic
+    # algorithm modules work on caller-supplied alphabets and never call clean() (no clean-up, nothing to check)
+    names = [m.__name__ for m in common.number_modules() if m.__name__ not in common.GENERIC_MODULES]
     mtasks = [('mod', n, p, k, seed, tier) for (n, p, k) in G.module_tasks(names, tier, 80)]
     order = G.schedule([t[1:] for t in mtasks])
     mtasks = [('mod',) + t for t in order]
